@@ -172,6 +172,21 @@ pub struct JSONValidator<'a> {
   map_entry_candidates: Option<Vec<(String, Value)>>,
 }
 
+/// Append the member key `key` to the JSON Pointer `location` as one reference
+/// token: `~` and `/` inside the key are written `~0` and `~1` (RFC 6901 Section
+/// 3), so that the location of a member named `a/b` does not read as member `b`
+/// of member `a`
+fn push_location_key(location: &mut String, key: &str) {
+  location.push('/');
+  for c in key.chars() {
+    match c {
+      '~' => location.push_str("~0"),
+      '/' => location.push_str("~1"),
+      c => location.push(c),
+    }
+  }
+}
+
 impl<'a> JSONValidator<'a> {
   #[cfg(not(target_arch = "wasm32"))]
   #[cfg(feature = "additional-controls")]
@@ -403,7 +418,7 @@ impl<'a> JSONValidator<'a> {
             .get_or_insert_with(Vec::new)
             .push(t.to_string());
           self.object_value = Some(v.clone());
-          let _ = write!(self.state.data_location, "/{}", t);
+          push_location_key(&mut self.state.data_location, t);
 
           return Ok(());
         } else if self
@@ -436,7 +451,7 @@ impl<'a> JSONValidator<'a> {
             .get_or_insert_with(Vec::new)
             .push(t.to_string());
           self.object_value = Some(v.clone());
-          self.state.data_location.push_str(&format!("/{}", t));
+          push_location_key(&mut self.state.data_location, t);
 
           return Ok(());
         } else if self
@@ -2982,7 +2997,7 @@ impl<'a> Visitor<'a, '_, Error> for JSONValidator<'a> {
                 .get_or_insert(vec![k.clone()])
                 .push(k.clone());
               self.object_value = Some(v.clone());
-              let _ = write!(self.state.data_location, "/{}", k);
+              push_location_key(&mut self.state.data_location, k);
             } else if let Some(Occur::Optional { .. }) = self.state.occurrence.take() {
               // absent optional entry: skip value validation for this entry
               self.state.advance_to_next_entry = true;
@@ -3023,7 +3038,7 @@ impl<'a> Visitor<'a, '_, Error> for JSONValidator<'a> {
                 .get_or_insert(vec![k.clone()])
                 .push(k.clone());
               self.object_value = Some(v.clone());
-              self.state.data_location.push_str(&format!("/{}", k));
+              push_location_key(&mut self.state.data_location, k);
             } else if let Some(Occur::Optional { .. }) = self.state.occurrence.take() {
               // absent optional entry: skip value validation for this entry
               self.state.advance_to_next_entry = true;
